@@ -169,6 +169,10 @@ pub struct World {
     pub inner_gate_closed: bool,
     pub inner_wakers: Vec<Waker>,
     pub inner_ready_polls: u64,
+    /// the service below the pool sends through the connection it reaches by dereferencing the
+    /// pooled handle (`&mut *conn`), as the handle's documented Deref / DerefMut allow, instead of
+    /// through the handle's own Connection impl
+    pub deref_send: bool,
 }
 
 impl World {
@@ -696,6 +700,16 @@ impl tower::Service<ExecuteRequest<Pooled<SimConn, SimBody>, SimBody>> for RecSv
         let rid = req.request().extensions().get::<ReqId>().map(|r| r.0);
         if let Some(r) = rid {
             on_handoff(&self.w, r, conn);
+        }
+        if self.w.lock().deref_send {
+            let (mut conn, request) = req.into_parts();
+            let fut = <SimConn as Connection<SimBody>>::send_request(&mut *conn, request);
+            return Box::pin(async move {
+                let r = fut.await.map_err(|e| hyperdriver::client::Error::Connection(Box::new(e)));
+                // (the handle is released when the response head is there, as RequestExecutor does)
+                drop(conn);
+                r
+            });
         }
         self.inner.call(req)
     }
